@@ -350,6 +350,56 @@ pub fn contract_case(seed: u64, case: u64, kind: &str, tmp: &str, nops: usize) -
             o => bad!("reopen-failed", o.describe()),
         }
     }
+    // a replica constructed from the URL: commit, read, reopen from the same URL, time travel from the URL
+    if by_url {
+        let upath = format!("{}_u", path);
+        cleanup(&upath);
+        let wrap = if kind.ends_with("+flate") { "+flate" } else if kind.ends_with("+brotli") { "+brotli" } else { "" };
+        let url = match kind.split('+').next().unwrap() {
+            "mem" => format!("memory{}://", wrap),
+            "fs" => format!("file{}://{}", wrap, upath),
+            "sqlite" => format!("sqlite{}://{}.db", wrap, upath),
+            _ => format!("sqlite{}::memory:", wrap),
+        };
+        let out = guard(|| {
+            let m = melda::melda::Melda::new_from_url(&url)?;
+            let d1 = serde_json::json!({"items\u{266D}": [{"_id": "a", "v": 1}], "t": "x}{"});
+            m.update(d1.as_object().unwrap().clone())?;
+            let a1 = m.commit(None)?.ok_or_else(|| anyhow::anyhow!("no commit"))?;
+            let d2 = serde_json::json!({"items\u{266D}": [{"_id": "a", "v": 2}, {"_id": "b"}], "t": "y"});
+            m.update(d2.as_object().unwrap().clone())?;
+            m.commit(None)?;
+            let live = serde_json::to_string(&m.read(None)?)?;
+            let listed = m.get_adapter().read().unwrap().list_objects(".delta")?.len();
+            let mut reopened = None;
+            let mut past = None;
+            if persistent(kind) {
+                reopened = Some(serde_json::to_string(&melda::melda::Melda::new_from_url(&url)?.read(None)?)?);
+                past = Some(serde_json::to_string(&melda::melda::Melda::new_from_url_until(&url, &a1)?.read(None)?)?);
+            }
+            Ok((live, listed, reopened, past))
+        });
+        res.count("c17_url_replicas", 1);
+        match out {
+            Outcome::Ok((live, listed, reopened, past)) => {
+                if listed != 2 {
+                    bad!("url-replica-storage-lists-other-blocks", format!("{} blocks listed through get_adapter()", listed));
+                }
+                if let Some(r2) = reopened {
+                    if r2 != live {
+                        bad!("url-replica-reopens-differently", format!("{} vs {}", live, r2));
+                    }
+                }
+                if let Some(p) = past {
+                    if !p.contains("\"v\":1") || p.contains("\"b\"") {
+                        bad!("url-replica-time-travel-wrong", p);
+                    }
+                }
+            }
+            o => bad!("url-replica-failed", o.describe()),
+        }
+        cleanup(&upath);
+    }
     let _ = guard_plain(|| ());
     cleanup(&path);
     res.features.insert("keys".into(), model.len() as u64);
